@@ -54,9 +54,14 @@ def applyEntry (r : Rules) (b : Book) : ZEntry → Book
 def replay (r : Rules) (b : Book) (log : List ZEntry) : Book := log.foldl (applyEntry r) b
 
 /-- `NodesManager.processSnapshot`, first loop: nodes the snapshot does not list are dropped,
-except the node itself -/
-def keptBook (self : Nat) (b s : Book) : Book :=
-  fun i => if i = self then b i else match s i with | some _ => b i | none => none
+except the node itself — provided the snapshot lists this node. A snapshot that does not was cut
+before this node joined: what the node learnt from the join handshake is newer, and nothing is
+dropped (`knowsMe = false` is the code before that repair: it dropped in both cases). -/
+def keptBookIf (knowsMe : Bool) (self : Nat) (b s : Book) : Book :=
+  if knowsMe && (s self).isNone then b
+  else fun i => if i = self then b i else match s i with | some _ => b i | none => none
+
+def keptBook (self : Nat) (b s : Book) : Book := keptBookIf true self b s
 
 /-- second loop: `AddNode` for every node of the snapshot -/
 def installStep (r : Rules) (s : Book) (acc : Book) (i : Nat) : Book :=
